@@ -104,6 +104,9 @@ class SynchronousDynamics(Dynamics):
             # fire any events posted for at or before this time
             nev = self.runPendingEvents(t)
 
+            # posted events leave the clock at their own time, so restore it
+            self.setCurrentSimulationTime(t)
+
             # run all the stochastic and fixed-rate events
             evs = self.allEventsInTimestep(t)
             for (l, e, ef, name) in evs:
